@@ -73,6 +73,12 @@ def run(chk):
                     cases.append((kind, content, ["ins:%s:%s" % (o, "b界"), "len"]))
                     cases.append((kind, content, ["split:%s" % o, "len"]))
                 cases.append((kind, content, ["app:z", "set:é", "len"]))
+    # a replace is ONE operation (DOM Level 1 replaceData): only its outcome has to be storable - not the state after
+    # the deletion half
+    for kind, content, op in [("comment", "a-x-b", "rep:2:1:y"), ("comment", "ab-c", "rep:3:M:d"), ("comment", "a-x-b", "rep:2:1:é"),
+                              ("cdata", "]x]>", "rep:1:1:y"), ("text", "]x]>", "rep:1:1:y"), ("text", "a]x]>b", "rep:2:1:𝒳"),
+                              ("comment", "-x", "rep:0:1:a")]:
+        cases.append((kind, content, [op, "len"]))
     n_exh = len(cases)
     # (2) random sequences of operations on longer contents
     nseq = 4000 if thorough else 800
